@@ -31,9 +31,9 @@ BUDGET = {"quick": 600, "thorough": 3600}  # idle 16-core expectation: ~8 s / ~7
 RULE = (
     "Post-conditions on coulomb_gaussian_s/p, coulomb_potential and load_atomic_gaussian_params evaluate every call against an "
     "independent reference (Coulomb integral of the documented density: mp.quad -> validated closed form -> float64). Cases: "
-    "single-grid = every (kind, normalized) x alpha in {1e-4..1e6 decades, 1,2,3 as ints} x a fixed hostile radius grid (0, denormal, "
-    "1e-300, 1e-14..1e-10 incl. both neighbours of the 1e-12 switch, decades to 1e6, 1e12, 1e150, 1e300, inf), independent of the seed; "
-    "single-sweep = seeded alpha log-uniform 1e-4..1e6 with ~300 radii (log-uniform in sqrt(alpha) r in 1e-9..50 and in r in 1e-14..1e6 "
+    "single-grid = every (kind, normalized) x alpha in {1e-4..1e6 decades, 1,2,3 as ints, 1e-30..1e30 in 15 steps} x a fixed hostile radius grid (0, denormal, "
+    "1e-300, 1e-14..1e-10, decades to 1e6, 1e12, 1e150, 1e300, inf; both float neighbours and +-1e-9, +-1e-3 of r = 1e-12 and of sqrt(alpha) r = 1e-8; sqrt(alpha) r from 1e-12 to 30), independent of the seed; "
+    "single-sweep = seeded alpha (half log-uniform 1e-4..1e6, half log-uniform 1e-30..1e30) with ~350 radii (log-uniform in sqrt(alpha) r in 1e-12..50 and in r in 1e-16..1e6, both switch neighbourhoods "
     "plus the hostile grid) passed as 1-D/2-D/read-only arrays, lists, Python/NumPy scalars and 0-d arrays, plus the continuity set "
     "{0, 0.5e-12, 2e-12, 1e-10}; quadrature = seeded (alpha, r) compared directly with mp.quad of the documented density; multi-centre = "
     "1-30 s and 0-30 p functions, random signs, duplicate centres, points on centres, within 1e-13..1e-10 of centres and up to 1e8 away, "
@@ -47,14 +47,14 @@ RULE = (
     "(int16..uint64, incl. radii >= 2^32) arrays, Python int lists, N-D radii (points x centres distance matrices with entries on the "
     "centre), read-only, Fortran-ordered and strided views; near-coincident-centres = degenerate but admissible geometry of the multi-centre "
     "routine: clusters of centres that coincide exactly, differ by 1 ulp, or by 1e-12..1e-4 absolute/relative, at the origin, at |c|~1 and "
-    "at |c|~1e3, with exponents up to 1e18 chosen so that sqrt(alpha) x separation ~ 1 and evaluation points on and within a few "
+    "at |c|~1e3, with exponents up to 1e30 chosen so that sqrt(alpha) x separation ~ 1 and evaluation points on and within a few "
     "1/sqrt(alpha) of every centre; cluster members consecutive, reversed, shuffled or separated by far centres, and split between "
     "centers_s and centers_p in every way (all s, all p, contiguous split, random assignment). One case = one "
     "parameter set (non-trivial when at least one oracle evaluation was made on a real library result)."
 )
 ASSUMPTIONS = [
     "documented density = the rho(r) formulas in the docstrings of coulomb_gaussian_s / coulomb_gaussian_p; potential = (1/r) int_0^r 4 pi s^2 rho + int_r^inf 4 pi s rho",
-    "exponents 1e-4 <= alpha <= 1e6 are decided at all radii; exponents up to 1e18 (near-coincident-centres family) are decided only at radii that are 0 or >= the documented 1e-12 switch radius: for alpha >~ 1e13 that fixed radius is no longer small against 1/sqrt(alpha) - recorded as an observation, not decided",
+    "exponents 1e-30 <= alpha <= 1e30 are decided at all radii (0, subnormal, both sides of r = 1e-12 and of sqrt(alpha) r = 1e-8, up to 1e300 and inf); results whose exact value is below the subnormal spacing are compared with an absolute allowance of 2e-323",
     "admissible element requests = symbols in any letter case and Python/NumPy integers, as the docstring of load_atomic_gaussian_params says",
     "float64 reference validated at start-up against 40-digit quadrature (closed form 1e-30) and against the mp closed form on 1500 hostile points (2e-15)",
 ]
@@ -65,6 +65,7 @@ TOL_VALUE = 1e-12  # relative; largest seen on the unchanged tree 4e-16 (s-type)
 TOL_QUAD = 1e-12
 TOL_CHARGE = 1e-12
 TOL_CONT = 1e-11
+TOL_JUMP = 1e-13  # relative step between neighbouring radii beyond 3 |delta| (the potentials have |dlnV/dlnr| <= 1)
 TOL_FACTOR = 1e-13
 TOL_ROUTE = 1e-12
 TOL_SCALAR = 1e-14
@@ -93,7 +94,10 @@ HOSTILE_R = [0.0, 5e-324, 1e-300, 1e-100, 1e-20, 1e-14, 1e-13, 0.5e-12, float(np
 CONT_R = [0.0, 0.5e-12, 2e-12, 1e-10]
 INT_R_SMALL = [0, 1, 2, 3, 7, 10, 100, 12345, 2**31 - 1]
 INT_R_BIG = INT_R_SMALL + [2**31, 2**32, 3037000499, 3037000500, 4_000_000_000, 10**12, 10**15, 2**62]
-GRID_ALPHAS = [1e-4, 1e-3, 1e-2, 0.1, 1.0, 10.0, 1e2, 1e3, 1e4, 1e5, 1e6, 1, 2, 3]
+XSWITCH = 1e-8  # since 078332e the r->0 limit is used only where r < SWITCH and sqrt(alpha) r < XSWITCH
+GRID_ALPHAS = [1e-4, 1e-3, 1e-2, 0.1, 1.0, 10.0, 1e2, 1e3, 1e4, 1e5, 1e6, 1, 2, 3, 1e-30, 1e-20, 1e-10, 1e8, 1e10, 1e12, 1e13, 1e14, 1e16, 1e18, 1e20, 1e22, 1e24, 1e27, 1e30]
+NEIGHBOUR_DELTAS = (-1e-3, -1e-9, "-ulp", 0.0, "+ulp", 1e-9, 1e-3)
+X_GRID = (1e-12, 1e-10, 1e-9, 3e-9, 1e-7, 1e-6, 1e-5, 1e-4, 1e-3, 1e-2, 0.1, 0.5, 1.0, 2.0, 4.0, 6.0, 8.0, 10.0, 30.0)
 
 # own periodic table (independent of grid.utils.sym2num)
 SYMBOLS = (
@@ -139,7 +143,6 @@ def cases(tier, seed):
         out.append(("buffer-reuse", {"target": ["potential", "potential", "potential", "s", "p"][k % 5], "k": k}, 3.0))
     for k in range(160 if q else 3000):
         out.append(("near-coincident-centres", {"normalized": bool(k % 2), "where": ["origin", "unit", "far"][(k // 2) % 3], "k": k}, 2.0))
-    out.append(("extreme-alpha-observation", {}, 1.0))
     return out
 
 
@@ -151,9 +154,9 @@ def _single_args(args, kwargs):
     return r, alpha, bool(normalized)
 
 
-def _branch(r_bad):
-    lo = bool(np.any(r_bad < SWITCH))
-    hi = bool(np.any(r_bad >= SWITCH))
+def _branch(r_bad, a=1.0):
+    small = (r_bad < SWITCH) & (math.sqrt(a) * r_bad < XSWITCH)
+    lo, hi = bool(np.any(small)), bool(np.any(~small))
     return "limit-branch+erf-branch" if lo and hi else ("limit-branch(r<1e-12)" if lo else "erf-branch(r>=1e-12)")
 
 
@@ -179,9 +182,9 @@ def value_check(ctx, kind, normalized, r, a, got, ref, tol, oracle):
             if bool(np.all(match)):
                 sig = SIG_KNOWN_P
             else:
-                sig = "other-discrepancy:" + _branch(r[bad][~match])
+                sig = "other-discrepancy:" + _branch(r[bad][~match], a)
         else:
-            sig = "wrong-value:" + _branch(r[bad])
+            sig = "wrong-value:" + _branch(r[bad], a)
     ctx.check(C_VALUE, subject, m, tol, sig=sig, detail={"oracle": oracle, "alpha": a, "r": float(r[i]), "got": float(got[i]), "want": float(ref[i]), "n_radii": int(r.size)})
 
 
@@ -216,7 +219,7 @@ def _post_single(ctx, kind):
             vn = np.asarray(_ORIG[kind](r, alpha, True), dtype=float).ravel()
             fct = cr.unnorm_factor(kind, a)
             with np.errstate(invalid="ignore"):
-                e = np.maximum(np.abs(gf - fct * vn) - TINY_ABS, 0.0) / np.where(vn != 0, np.abs(fct * vn), 1.0)
+                e = np.maximum(np.abs(gf - fct * vn) - TINY_ABS, 0.0) / np.where(np.abs(fct * vn) > 0, np.abs(fct * vn), 1.0)  # fct * vn may underflow to 0 (exact value below the subnormal range)
             e = np.where(np.isnan(e), np.inf, e)
             j = int(np.argmax(e))
             ctx.check(C_FACTOR, f"coulomb_gaussian_{kind}", float(e[j]), TOL_FACTOR, sig="ratio!=documented-factor", detail={"alpha": a, "r": float(rf[j]), "ratio": float(gf[j] / vn[j]) if vn[j] else None, "documented": fct})
@@ -392,8 +395,48 @@ def _call_single(kind, r, alpha, normalized, style=0):
     return f(r, alpha, normalized)
 
 
+def _draw_alpha(rng):
+    """Half of the exponents in the chemically usual range, half anywhere in 1e-30..1e30 (some exact powers of ten)."""
+    u = rng.random()
+    if u < 0.5:
+        return float(10.0 ** rng.uniform(-4, 6))
+    if u < 0.9:
+        return float(10.0 ** rng.uniform(-30, 30))
+    return float(10.0 ** int(rng.integers(-30, 31)))
+
+
+def _neighbours(r0):
+    out = []
+    for d in NEIGHBOUR_DELTAS:
+        if d == "-ulp":
+            out.append((float(np.nextafter(r0, 0)), 2.3e-16))
+        elif d == "+ulp":
+            out.append((float(np.nextafter(r0, np.inf)), 2.3e-16))
+        else:
+            out.append((r0 * (1.0 + d), abs(d)))
+    return out
+
+
+def _switch_radii(a):
+    """Radii just below / on / just above both switch points: r = 1e-12 and sqrt(alpha) r = 1e-8."""
+    return [r for r0 in (SWITCH, XSWITCH / math.sqrt(a)) for r, _ in _neighbours(r0)]
+
+
 def _continuity(ctx, kind, alpha, normalized):
     subject = f"coulomb_gaussian_{kind}:{_nrm(normalized)}"
+    a = float(alpha)
+    # no jump between neighbouring radii at either switch point, for every exponent: the potentials have
+    # |dlnV/dlnr| <= 1, so a relative step delta in r changes V by at most ~delta (3 delta allowed)
+    for name, r0 in (("1e-12", SWITCH), ("x=1e-8", XSWITCH / math.sqrt(a))):
+        with ctx.guard(C_CONT, subject):
+            nb = _neighbours(r0)
+            v = np.asarray(_call_single(kind, np.array([r for r, _ in nb]), alpha, normalized, 1), dtype=float)
+            v0 = float(np.asarray(_call_single(kind, r0, alpha, normalized, 2)).ravel()[0])
+            ok = v.shape == (len(nb),) and np.all(np.isfinite(v)) and v0 > 0
+            m = float(max(max(0.0, abs(x - v0) / v0 - 3.0 * d) for x, (_, d) in zip(v, nb))) if ok else float("inf")
+            ctx.check(C_CONT, subject, m, TOL_JUMP, sig=f"jump-at-{name}-switch", detail={"alpha": a, "r0": r0, "r": [r for r, _ in nb], "V": v.tolist(), "V(r0)": v0})
+    if a > 1e6:
+        return  # beyond that the potential genuinely varies between the four radii of the next check
     with ctx.guard(C_CONT, subject):
         v = np.asarray(_call_single(kind, np.array(CONT_R), alpha, normalized, 1), dtype=float)
         vs = np.array([float(np.asarray(_call_single(kind, x, alpha, normalized, 2)).ravel()[0]) for x in CONT_R])
@@ -443,7 +486,7 @@ def _fset(rng, k, box):
     co = rng.lognormal(0, 2, k) * rng.choice([-1.0, 1.0], k)
     if k > 3 and rng.random() < 0.3:
         co[int(rng.integers(0, k))] = 0.0
-    al = 10.0 ** rng.uniform(-4, 6, k)
+    al = np.where(rng.random(k) < 0.8, 10.0 ** rng.uniform(-4, 6, k), 10.0 ** rng.uniform(-30, 30, k))
     return cen, co, al
 
 
@@ -554,7 +597,7 @@ def _buffer_reuse_single(ctx, gc, rng, kind):
     nrm = bool(rng.integers(0, 2))
     f = getattr(gc, f"coulomb_gaussian_{kind}")
     other = getattr(gc, "coulomb_gaussian_" + ("p" if kind == "s" else "s"))
-    a = float(10.0 ** rng.uniform(-4, 6))
+    a = _draw_alpha(rng)
     alpha = np.array(a) if rng.random() < 0.5 else a  # a 0-d array is a buffer too
     L = 1.0 / math.sqrt(a)
     shape = (int(rng.integers(1, 60)),) if rng.random() < 0.5 else (int(rng.integers(1, 12)), int(rng.integers(2, 8)))
@@ -576,7 +619,7 @@ def _buffer_reuse_single(ctx, gc, rng, kind):
         elif op == "below-switch-some":
             r.flat[rng.integers(0, r.size, 2)] = [0.5e-12, float(np.nextafter(SWITCH, 0))]
         elif op == "alpha-in-place":
-            a = float(10.0 ** rng.uniform(-4, 6))
+            a = _draw_alpha(rng)
             if isinstance(alpha, np.ndarray):
                 alpha[...] = a
             else:
@@ -626,13 +669,13 @@ def _near_coincident(ctx, gc, rng, params):
             sep = float(np.sqrt(np.sum((c - c0) ** 2)))
             seps.append(sep)
             if rng.random() < 0.25:
-                a = float(10.0 ** rng.uniform(-4, 6))
-            elif sep >= SWITCH:
-                a = float(min(1e18, (10.0 ** rng.uniform(-0.5, 0.7) / sep) ** 2))
-            else:  # exactly coincident or closer than the documented switch radius: keep alpha * SWITCH^2 negligible (ASSUMPTIONS)
-                a = float(10.0 ** rng.uniform(2, 10))
+                a = _draw_alpha(rng)
+            elif sep > 0:
+                a = float(min(1e30, (10.0 ** rng.uniform(-0.5, 0.7) / sep) ** 2))
+            else:
+                a = float(10.0 ** rng.uniform(0, 24))
             funcs.append((cl, c, a, float(rng.lognormal(0, 1.5) * rng.choice([-1.0, 1.0]))))
-    far = [(-1, rng.uniform(-3, 3, 3), float(10.0 ** rng.uniform(-4, 6)), float(rng.lognormal(0, 1.5) * rng.choice([-1.0, 1.0]))) for _ in range(int(rng.integers(0, 4)))]
+    far = [(-1, rng.uniform(-3, 3, 3), _draw_alpha(rng), float(rng.lognormal(0, 1.5) * rng.choice([-1.0, 1.0]))) for _ in range(int(rng.integers(0, 4)))]
     order = str(rng.choice(["clusters-contiguous", "reversed", "shuffled", "far-first", "far-in-between", "members-interleaved"]))
     if order == "clusters-contiguous":
         seq = funcs + far
@@ -681,13 +724,6 @@ def _near_coincident(ctx, gc, rng, params):
     if len(pts) > 70:
         pts = pts[np.sort(rng.choice(len(pts), 70, replace=False))]
     pts = np.concatenate([pts, rng.uniform(-3, 3, (3, 3)), _unit(rng, 2) * np.array([[1e4], [1e7]])])
-    # stay inside the decided domain: no point closer than the switch radius (but not on) a centre whose alpha makes that radius matter
-    keep = np.ones(len(pts), dtype=bool)
-    for _, c, a, _ in seq:
-        if a > 1e10:
-            d = _dist(pts, c)
-            keep &= ~((d > 0) & (d < SWITCH))
-    pts = pts[keep]
     ctx.case_note("order", order)
     ctx.case_note("split", split)
     ctx.case_note("n_functions", len(seq))
@@ -735,7 +771,7 @@ def run_case(ctx, family, params):
     elif family == "single-grid":
         kind, nrm = params["kind"], params["normalized"]
         a = GRID_ALPHAS[params["ia"]]
-        r = np.array(HOSTILE_R)
+        r = np.array(HOSTILE_R + _switch_radii(float(a)) + [x / math.sqrt(a) for x in X_GRID])
         subject = f"coulomb_gaussian_{kind}:{_nrm(nrm)}"
         with ctx.guard(C_VALUE, subject):
             v = np.asarray(_call_single(kind, r, a, nrm, params["ia"]), dtype=float)
@@ -748,11 +784,10 @@ def run_case(ctx, family, params):
         _continuity(ctx, kind, a, nrm)
     elif family == "single-sweep":
         kind, nrm = params["kind"], params["normalized"]
-        a = float(10.0 ** rng.uniform(-4, 6))
-        if rng.random() < 0.1:
-            a = float(10.0 ** rng.integers(-4, 7))
+        a = _draw_alpha(rng)
         n1, n2 = int(rng.integers(60, 200)), int(rng.integers(60, 200))
-        r = np.concatenate([10.0 ** rng.uniform(-9, 1.7, n1) / math.sqrt(a), 10.0 ** rng.uniform(-14, 6, n2), HOSTILE_R, SWITCH * (1 + rng.uniform(-1e-3, 1e-3, 6))])
+        r = np.concatenate([10.0 ** rng.uniform(-12, 1.7, n1) / math.sqrt(a), 10.0 ** rng.uniform(-14, 6, n2), HOSTILE_R, _switch_radii(a), SWITCH * (1 + rng.uniform(-1e-3, 1e-3, 6)),
+                            XSWITCH / math.sqrt(a) * (1 + rng.uniform(-1e-3, 1e-3, 6)), SWITCH * 10.0 ** rng.uniform(-4, 0, 8)])
         rng.shuffle(r)
         alpha = _alpha_form(rng, a)
         subject = f"coulomb_gaussian_{kind}:{_nrm(nrm)}"
@@ -781,8 +816,8 @@ def run_case(ctx, family, params):
     elif family == "quadrature":
         kind = params["kind"]
         nrm = bool(rng.integers(0, 2))
-        a = float(10.0 ** rng.uniform(-4, 6))
-        x = np.concatenate([10.0 ** rng.uniform(-6, 1.3, 3), [[0.0, 1e-300 * math.sqrt(a), 0.9e-12 * math.sqrt(a), 1.1e-12 * math.sqrt(a), 1e-10 * math.sqrt(a), 30.0, 1e6][params["k"] % 7]]])
+        a = _draw_alpha(rng)
+        x = np.concatenate([10.0 ** rng.uniform(-6, 1.3, 3), [[0.0, 1e-300 * math.sqrt(a), 0.9e-12 * math.sqrt(a), 1.1e-12 * math.sqrt(a), 1e-10 * math.sqrt(a), 30.0, 1e6, 0.99 * XSWITCH, 1.01 * XSWITCH][params["k"] % 9]]])
         r = x / math.sqrt(a)
         subject = f"coulomb_gaussian_{kind}:{_nrm(nrm)}"
         with ctx.guard(C_VALUE, subject):
@@ -833,7 +868,7 @@ def run_case(ctx, family, params):
                 cp[0] = pts[0]
         elif form == 5:
             pts, cs, cos, als, cp, cop, alp = (x.astype(np.float32) for x in (pts, cs, cos, als, cp, cop, alp))
-            als, alp = np.maximum(als, np.float32(1e-4)), np.maximum(alp, np.float32(1e-4))
+            als, alp = np.maximum(als, np.float32(1e-30)), np.maximum(alp, np.float32(1e-30))
         elif form == 6:
             big = np.zeros((len(pts), 6))
             big[:, ::2] = pts
@@ -950,16 +985,5 @@ def run_case(ctx, family, params):
             _buffer_reuse_single(ctx, gc, rng, params["target"])
     elif family == "near-coincident-centres":
         _near_coincident(ctx, gc, rng, params)
-    elif family == "extreme-alpha-observation":
-        # not decided (ASSUMPTIONS): the switch radius is fixed at 1e-12 whatever alpha
-        for a in (1e10, 1e14, 1e18, 1e22):
-            r = np.array([0.99e-12])
-            try:
-                v = float(_ORIG["s"](r, a)[0])
-                t = float(cr.v_closed_mp("s", 0.99e-12, a))
-                ctx.observe("s-type relative error just below the 1e-12 switch for exponents beyond the decided range", alpha=a, rel_err=abs(v - t) / t)
-            except Exception as exc:  # noqa: BLE001
-                ctx.observe("s-type raised for exponent beyond the decided range", alpha=a, error=type(exc).__name__)
-        ctx.trivial()
     else:
         raise ValueError(family)
